@@ -5,3 +5,4 @@ pub mod time;
 pub mod timer;
 pub mod obs;
 pub mod local;
+pub mod axync;
